@@ -65,6 +65,19 @@ type Check struct {
 	Shrink func(c *Check, p *drv.Plan, v *drv.Violation) *drv.Plan
 }
 
+// statesMeasure says what "states_distinct" counts for a check.
+func statesMeasure(c *Check) string {
+	switch {
+	case c.ID == "C06":
+		return "distinct adjacency pairs 'task:yield point>next task' of the schedules executed (which task was preempted where, in favour of whom)"
+	case c.ID == "C18":
+		return "concurrent mode only: distinct adjacency pairs 'task:yield point>next task' of the schedules executed"
+	case c.Engine == "drv":
+		return "distinct digests of (durable contents of the simulated disk, first/latest/loaded version of the model, fast-index and cache setting of the open handle) after every structural step (commit, deletion, rollback, reopen, load, import, discard); at most 64 per run; C05 mode async adds the adjacency pairs of its schedules"
+	}
+	return "not measured for this engine (real SQLite files): see probes and stats"
+}
+
 var registry = map[string]*Check{}
 
 // Register adds a check.
@@ -657,6 +670,7 @@ func Coordinate(c *Check, tier string, self string) int {
 		"probes":              a.probes,
 		"stats":               a.stats,
 		"states_distinct":     len(a.states),
+		"states_measure":      statesMeasure(c),
 		"stopped_on_foreign_failure": map[string]interface{}{
 			"runs": a.foreignN, "by_signature": a.foreign,
 		},
